@@ -372,6 +372,20 @@ def run(prop, tier_):
                     v.notes.append("sequential model vs library: %s [%s] model=%s library=%s" % (c["meta"]["call"], c["meta"]["backend"], exp, got))
             else:
                 stats["model_agrees"] += 1
+    # "nothing else in the tree was ... modified": kind, permission bits, owner and link body of every object that exists
+    # before and after the call(s) are unchanged (unattacked cases)
+    for c, r in zip(cases, results):
+        if r.get("status") != "ok" or c["meta"].get("kind") == "attacked" or not r.get("init") or not r.get("final"):
+            continue
+        before = {i["id"]: (i.get("k"), i.get("mode"), i.get("uid"), i.get("b")) for i in r["init"]["inodes"]}
+        after = {i["id"]: (i.get("k"), i.get("mode"), i.get("uid"), i.get("b")) for i in r["final"]["inodes"]}
+        changed = sorted(i for i in before if i in after and before[i] != after[i])
+        stats["attr_checked"] += 1
+        if changed:
+            i = changed[0]
+            v.violation(dict(check="existing-object-modified", op=c["calls"][0]["op"], backend=c["meta"].get("backend")),
+                        "%s: %s(%r) [%s backend] modified an object that existed before the call: inode %d (kind, mode, owner, body) %s -> %s" % (
+                            prop, c["calls"][0]["op"], c["calls"][0].get("path"), c["meta"].get("backend"), i, before[i], after[i]), c)
     # the wide / deep trees exceed the inode range of the trace specifications: judged directly on the real snapshots
     big = [(c, r) for c, r in zip(cases, results) if c["meta"].get("kind") == "static-big"]
     small = [(c, r) for c, r in zip(cases, results) if c["meta"].get("kind") != "static-big"]
